@@ -62,6 +62,22 @@ def c0_name(b: int):
     return None
 
 
+def wide_pair_class(b1: int, b2: int) -> str:
+    """do the two bytes form ONE double-byte character?  Documented layout of the wide encodings urwid supports
+    (euc-jp/kr/cn/tw, gbk, big5, uhc): lead 0x81..0xFE, trail 0x40..0x7E or 0x80..0xFE.  'pair' / 'not-pair' where
+    that layout decides; 'undocumented' for lead 0x80 / 0xFF or trail 0xFF combined with an 8-bit partner"""
+    lead_ok = 0x81 <= b1 <= 0xFE
+    if b2 < 0x40 or b2 == 0x7F:
+        return "not-pair"  # controls, digits, punctuation, DEL are never trail bytes
+    if b2 < 0x7F:
+        if b1 == 0xFF:
+            return "undocumented"  # 0xFF is no lead byte of any supported encoding; urwid's >= 0x81 test accepts it
+        return "pair" if lead_ok else "not-pair"
+    if lead_ok and b2 <= 0xFE:
+        return "pair"
+    return "undocumented"
+
+
 def utf8_encode(cp: int) -> bytes:
     if cp < 0x80:
         return bytes([cp])
@@ -281,6 +297,17 @@ class Model:
             if mode != "wide":
                 return Tok([d[1], d[2]], None, "dbcs-offmode")
             return Tok([d[1], d[2]], [chr(d[1]) + chr(d[2])], "dbcs")
+        if k == "wpair":  # wide mode: a byte >= 0x80 followed by any byte
+            b1, b2 = d[1], d[2]
+            if mode != "wide" or b1 < 0x80:
+                return Tok([b1, b2], None, "wpair-offmode")
+            cls = wide_pair_class(b1, b2)
+            if cls == "pair":
+                return Tok([b1, b2], [chr(b1) + chr(b2)], "dbcs")
+            if cls == "not-pair" and b2 != ESC:
+                second = chr(b2) if 32 <= b2 <= 126 else (c0_name(b2) or ANY)
+                return Tok([b1, b2], [ANY, second], "wide-lead+single-byte", garbage=True)
+            return Tok([b1, b2], None, "wpair-undocumented")
         if k == "u8bad":  # run of bytes none of which can start/continue a valid character
             run = bytes(d[1])
             if mode != "utf8" or not utf8_all_invalid(run):
